@@ -44,8 +44,23 @@ def lemmas(D):
 for D in (1, 2, 3):
     all_eq = ' && '.join('g_n%d == g_m%d' % (k, k) for k in range(D))
     nonempty = ' && '.join('g_n%d > 0 && g_m%d > 0' % (k, k) for k in range(D))
-    G = ghosts_fn(D) + [(I64, 'g_m%d' % k) for k in range(D)]
-    st = [Stub(r'bool std::equal<boost::multi::elements_iterator_t<double const\*, boost::multi::layout_t<%dl, long> >, .*' % D, record=[('g_eq_f1', 0, EIc(D)), ('g_eq_l1', 1, EIc(D)), ('g_eq_f2', 2, EIc(D))], ret='g_eq_ret', count='g_eq_calls')]
+    ii = ['g_i%d' % k for k in range(D)]
+    G = ghosts_fn(D) + [(I64, 'g_m%d' % k) for k in range(D)] + [(I64, x) for x in ii]
+    st = [Stub(r'bool std::equal<boost::multi::elements_iterator_t<double const\*, boost::multi::layout_t<%dl, long> >, .*' % D, record=[('g_eq_f1', 0, EIc(D)), ('g_eq_l1', 1, EIc(D)), ('g_eq_f2', 2, EIc(D))], ret='g_eq_ret', count='g_eq_calls'),
+          # a comparison of raw storage (not present in the current tree): accepted only where it is the same comparison, see the last postcondition
+          Stub(r'bool std::equal<double const\*, double const\*(, std::equal_to<void> )?>\(.*', record=[('g_rq_f1', 0, None, 'ptr'), ('g_rq_l1', 1, None, 'ptr'), ('g_rq_f2', 2, None, 'ptr')], ret='g_rq_ret', count='g_rq_calls', optional=True,
+               absent='double const *g_rq_f1; double const *g_rq_l1; double const *g_rq_f2; _Bool g_rq_ret;')]
+    def prodn(k):      # product of the extents after dimension k
+        ns_ = ['g_n%d' % j for j in range(k+1, D)]
+        if not ns_: return '1'
+        e = ns_[-1]
+        for n_ in reversed(ns_[:-1]): e = 'MUL(%s, %s)' % (n_, e)
+        return e
+    lin = ' + '.join('MUL(%s, %s)' % (ii[k], prodn(k)) for k in range(D))
+    cellv = lambda v: '%s->base_ + (%s)' % (v, ' + '.join('MUL(%s, %s)' % (ii[k], lp(v, k, 'stride_')) for k in range(D)))
+    in_rng = ' && '.join('0 <= %s && %s < g_n%d' % (ii[k], ii[k], k) for k in range(D))
+    raw_ok = ('a flat comparison of the underlying storage (instead of the elements() ranges) is only used when, for every index tuple, the element of each view sits at its canonical linear position in the compared block, and the block has exactly num_elements() cells',
+              'IMPLIES(g_rq_calls >= 1 && %s, g_rq_calls == 1 && g_eq_calls == 0 && g_rq_l1 == g_rq_f1 + %s && g_rq_f1 + (%s) == %s && g_rq_f2 + (%s) == %s)' % (in_rng, total(D, 'g_n'), lin, cellv('other'), lin, cellv('self')))
     called = ('g_eq_f1.n_ == 0 && g_eq_l1.n_ == %s && g_eq_f2.n_ == 0 && %s && %s && %s'
               % (total(D, 'g_m'), same_range('g_eq_f1', 'other', D), same_range('g_eq_l1', 'other', D), same_range('g_eq_f2', 'self', D)))
     for nm, op, pos in (('eq', '==', True), ('ne', '!=', False)):
@@ -54,8 +69,8 @@ for D in (1, 2, 3):
                     r'boost::multi::operator%s\(' % E(op) + CSn(1) + ' const&, ' + CSn(1) + r' const&\)',
               wrapper=('bool', 'CS<%d> const* self, CS<%d> const* other' % (D, D), 'return *self %s *other;' % op),
               cxx={'self': SUB(D), 'other': SUB(D)}, ghosts=G, stubs=st, mode='uf',
-              requires=[view_ok('self', D, 'g_n'), view_ok('other', D, 'g_m')], lemmas=lemmas(D),
-              ensures=[('[delegation] equal extents: the element-wise part is delegated to exactly one call of std::equal', 'IMPLIES(%s, g_eq_calls == 1)' % all_eq),
+              requires=[view_ok('self', D, 'g_n'), view_ok('other', D, 'g_m'), ' && '.join('INR(%s)' % x for x in ii)], lemmas=lemmas(D),
+              ensures=[raw_ok, ('[delegation] equal extents: the element-wise part is delegated to exactly one call of std::equal', 'IMPLIES(%s, g_eq_calls == 1 && g_rq_calls == 0)' % all_eq),
                        ('equal extents: std::equal receives the two complete element ranges (canonical order) and its verdict is returned%s' % ('' if pos else ' negated'),
                         'IMPLIES(%s && g_eq_calls == 1, RET == %sg_eq_ret && %s)' % (all_eq, '' if pos else '!', called)),
                        ('different extents (non-empty operands): %s whatever the elements' % ('false' if pos else 'true'),
@@ -108,3 +123,26 @@ for D in (1, 2, 3):
             ens += [('the verdict of the strict lexicographic comparison is returned', 'IMPLIES(g_lex_calls == 1, RET == g_lex_ret)')]
         Check('Q%d_%s' % (D, nm), ['C07'], fn_re=fn_re, wrapper=('bool', 'CS<%d> const* self, CS<%d> const* other' % (D, D), 'return *self %s *other;' % op),
               stubs=[lex] + ([eq] if with_eq else []), ensures=ens, tier='quick' if D < 3 else 'thorough', **common)
+
+# ---------------------------------------------------------------------------------------------------------------------
+# value-level ordering, BOUNDED (sizes 0..3, full unwinding): the 1-D operators on real element values against the textbook definition of the
+# lexicographic order.  Independent of how the library computes it (std::lexicographical_compare today), so a re-implementation is still decided.
+def lex_lt(n, m, a, b, k=0, K=3):
+    """a[0..n) <lex b[0..m) as a closed formula"""
+    if k == K: return '0'
+    return '(%d >= %s ? %d < %s : (%d >= %s ? 0 : (%s%d < %s%d ? 1 : (%s%d < %s%d ? 0 : %s))))' % (k, n, k, m, k, m, a, k, b, k, b, k, a, k, lex_lt(n, m, a, b, k+1, K))
+def all_eq_v(n, m): return '(%s == %s && %s)' % (n, m, ' && '.join('(%d >= %s || a%d == b%d)' % (k, n, k, k) for k in range(3)))
+for nm, op, spec in (('lt', '<', lex_lt('n', 'm', 'a', 'b')), ('gt', '>', lex_lt('m', 'n', 'b', 'a')),
+                     ('le', '<=', '(%s || %s)' % (all_eq_v('n', 'm'), lex_lt('n', 'm', 'a', 'b'))), ('ge', '>=', '(%s || %s)' % (all_eq_v('n', 'm'), lex_lt('m', 'n', 'b', 'a')))):
+    for strided in (False, True):
+        cid = 'Q1_%s_values%s' % (nm, '_strided' if strided else '')
+        Check(cid, ['C07'], 'compare', fn='w_' + cid, params=['n', 'm'] + ['a%d' % k for k in range(3)] + ['b%d' % k for k in range(3)],
+              wrapper=('bool', 'long n, long m, double a0, double a1, double a2, double b0, double b1, double b2',
+                       ('double A[6] = {a0, -1.0, a1, -2.0, a2, -3.0}; double B[3] = {b0, b1, b2}; multi::array_ref<double, 1> ra(A, {2*n}); multi::array_ref<double, 1> rb(B, {m}); return ra.strided(2) %s rb;' % op) if strided else
+                       ('double A[3] = {a0, a1, a2}; double B[3] = {b0, b1, b2}; multi::array_ref<double, 1> ra(A, {n}); multi::array_ref<double, 1> rb(B, {m}); return ra %s rb;' % op)),
+              ghosts=[],
+              requires=['0 <= n && n <= 3 && 0 <= m && m <= 3', ' && '.join('a%d == a%d && b%d == b%d' % (k, k, k, k) for k in range(3))],
+              ensures=[('a %s b is the lexicographic order of the element sequences (sizes 0..3, any values)' % op, 'RET == %s' % spec)],
+              covers=['n == 3 && m == 2 && a0 == b0 && a1 < b1', 'n == 2 && m == 3 && a0 == b0 && a1 == b1', 'n == 0'],
+              assigns=[], mode='exact', unwind=9, objbits=10, timeout=900, native=True,
+              bounded='sizes 0..3 per operand, loops fully unwound (unwinding assertions on)')
